@@ -282,8 +282,10 @@ Definition roll_of (b : backend) : row -> Z -> row := match b with BFortran => f
 Definition fixed_fortran_pi : bool := true.
 Definition pi_f64 : Qc := Q2Qc (884279719003555 # 281474976710656).
 Definition pi_f32 : Qc := Q2Qc (13176795 # 4194304).
-Definition backend_pi (b : backend) : Qc :=
-  match b with BFortran => if fixed_fortran_pi then pi_f64 else pi_f32 | _ => pi_f64 end.
+(* the switch as an explicit argument, so that the before-fix statement is about a real value (not a false hypothesis) *)
+Definition backend_pi_gen (fixed : bool) (b : backend) : Qc :=
+  match b with BFortran => if fixed then pi_f64 else pi_f32 | _ => pi_f64 end.
+Definition backend_pi (b : backend) : Qc := backend_pi_gen fixed_fortran_pi b.
 (* `E`: numpy.e / torch.e / jax.numpy.e, and `double precision :: E = exp(1.0d0)` in the Fortran module since fix D111 (before, an equation with E did not compile there) *)
 Definition e_f64 : Qc := Q2Qc (6121026514868073 # 2251799813685248).
 Definition is_fortran (b : backend) : bool := match b with BFortran => true | _ => false end.
